@@ -159,12 +159,22 @@ Definition run_detector (f : func) (r : fn_result) (fuel : nat) (name : string) 
   detect_paths f (validated_in_block r checks None) report fuel.
 
 (* ---------------------------------------------------------------- construct_function(teal, ["B0"]) *)
-(* used subroutines: closure of called subroutines from the main blocks (order irrelevant to results) *)
+(* used subroutines: closure of called subroutines from the main blocks, in the order of the tool's worklist *)
 Definition called_from (t : teal) (blks : list nat) : list string :=
   flat_map (fun n => match tblock t n with
                      | Some b => match exit_op t b with Some (ICallsub l) => [l] | _ => [] end
                      | None => [] end) blks.
 
+(* Subroutine.called_subroutines: list(dict.fromkeys(...)) -- the callees in call-site order, each listed at
+   its FIRST occurrence *)
+Fixpoint dedup_first (l : list string) : list string :=
+  match l with
+  | [] => []
+  | x :: xs => x :: filter (fun y => negb (String.eqb x y)) (dedup_first xs)
+  end.
+
+(* the worklist of construct_function: for the subroutine at the head of the worklist, its callees in
+   first-occurrence order, each appended to [acc] (used_subroutines) and to the worklist iff not already in [acc] *)
 Fixpoint used_subs (fuel : nat) (t : teal) (work : list string) (acc : list string) : list string :=
   match fuel with
   | O => acc
@@ -174,14 +184,14 @@ Fixpoint used_subs (fuel : nat) (t : teal) (work : list string) (acc : list stri
       | s :: w =>
           let callees := match find_sub t s with Some sb => called_from t (s_blocks sb) | None => [] end in
           let new := filter (fun c => negb (smem c acc)) callees in
-          let new := fold_right (fun c l => if smem c l then l else c :: l) [] new in
+          let new := dedup_first new in
           used_subs fu t (w ++ new) (acc ++ new)
       end
   end.
 
 Definition whole_function (t : teal) : func :=
   let main_blocks := s_blocks (t_main t) in
-  let direct := fold_right (fun c l => if smem c l then l else c :: l) [] (called_from t main_blocks) in
+  let direct := dedup_first (called_from t main_blocks) in
   let used := used_subs (S (length (t_subs t))) t direct direct in
   let subs := flat_map (fun n => match find_sub t n with Some s => [s] | None => [] end) used in
   let ids := main_blocks ++ flat_map s_blocks subs in
